@@ -25,7 +25,9 @@ META = dict(
          "drain expectations, every close order, high-water marks) plus all paths to depth 3. Each behaviour is executed on the "
          "real mocks with a recording ErrorReporter; TLC checks per message: outcome of the i-th expectation, exactly one outcome, "
          "increasing offsets, partition choice, and the exact bag of reported deviation kinds.",
-    note="bounded enumeration (thorough: scripts <=5 / 6 messages, deeper consumer graph); reporter calls compared as a bag of "
+    note="bounded enumeration (thorough: scripts <=5 / 0..6 messages, interleavings with 6 kinds / 4 messages / batches of 2-3, all "
+         "partition-count combinations with Return.Successes on/off, consumer graph to depth 8 with 3 messages + 2 errors per "
+         "partition and all paths to depth 4); reporter calls compared as a bag of "
          "deviation kinds classified by their format string, not message texts; producer offsets only required to increase; "
          "harness + TLC trusted. Two defects of the pinned mocks are listed in known_findings.json.",
     design_ref="6/C20",
